@@ -378,4 +378,76 @@ def healed : FEvent → DEvent
   | .postProcess => .postProcess
   | .faultyRun _ => .postProcess
 
+/-! ## the transport in front of the driver: samplers, worker shipments, messages in flight
+
+A worker's `send_samples()` (at every wake-up while its executor runs, and before it moves on when the executor is done —
+to a join point or to the next task of its clients) drains its sampler completely into ONE `UpdateSamples` message (no message
+if there is nothing); messages of one worker arrive in the order they were sent; the driver appends them to its buffer. -/
+
+inductive TEvent where
+  /-- `Sampler.add` accepts a sample on worker `w` -/
+  | accept (w : Nat) (s : Nat × TSample)
+  /-- worker `w` ships -/
+  | ship (w : Nat)
+  /-- the oldest message of worker `w` still in flight is delivered to the driver -/
+  | deliver (w : Nat)
+  /-- `Driver.post_process_samples` -/
+  | postProcess
+
+structure TState where
+  queued : List (Nat × (Nat × TSample))            -- (worker, sample) in the samplers, in acceptance order
+  inflight : List (Nat × List (Nat × TSample))     -- (worker, message) sent, not yet delivered
+  buf : List (Nat × TSample)                       -- `Driver.raw_samples`
+  stats : List (Nat × TaskStats)                   -- the calculator
+
+/-- the oldest message of worker `w`, and the messages that stay in flight -/
+def takeMsg (w : Nat) : List (Nat × List (Nat × TSample)) →
+    Option (List (Nat × TSample) × List (Nat × List (Nat × TSample)))
+  | [] => none
+  | (w', c) :: l =>
+    if w' = w then some (c, l)
+    else match takeMsg w l with
+      | some (c', l') => some (c', (w', c) :: l')
+      | none => none
+
+def tstep (st : TState) : TEvent → TState
+  | .accept w s => { st with queued := st.queued ++ [(w, s)] }
+  | .ship w =>
+    match (st.queued.filter (fun x => x.1 == w)).map (·.2) with
+    | [] => st
+    | c :: cs => { st with queued := st.queued.filter (fun x => !(x.1 == w)), inflight := st.inflight ++ [(w, c :: cs)] }
+  | .deliver w =>
+    match takeMsg w st.inflight with
+    | none => st
+    | some (c, rest) => { st with inflight := rest, buf := st.buf ++ c }
+  | .postProcess => { st with buf := [], stats := (postprocess st.stats st.buf).1 }
+
+def tfinal (st : TState) : List TEvent → TState
+  | [] => st
+  | e :: evs => tfinal (tstep st e) evs
+
+/-- the batches the post-processing runs see -/
+def tbatches (st : TState) : List TEvent → List (List (Nat × TSample))
+  | [] => []
+  | .postProcess :: evs => st.buf :: tbatches (tstep st .postProcess) evs
+  | e :: evs => tbatches (tstep st e) evs
+
+/-- the throughput records each post-processing run writes -/
+def trecords (st : TState) : List TEvent → List (List (Nat × Out))
+  | [] => []
+  | .postProcess :: evs => (postprocess st.stats st.buf).2 :: trecords (tstep st .postProcess) evs
+  | e :: evs => trecords (tstep st e) evs
+
+/-- every sample that is somewhere between a sampler and the calculator -/
+def TState.held (st : TState) : List (Nat × TSample) :=
+  st.buf ++ ((st.inflight.map (·.2)).flatten ++ st.queued.map (·.2))
+
+/-- the samples the samplers accepted -/
+def acceptedOf : List TEvent → List (Nat × TSample)
+  | [] => []
+  | .accept _ s :: evs => s :: acceptedOf evs
+  | _ :: evs => acceptedOf evs
+
+def TState.empty : TState := { queued := [], inflight := [], buf := [], stats := [] }
+
 end Throughput
